@@ -17,15 +17,15 @@ open PgVerif.Props.C11 (IsOrder C11_remote_tables_order_independent)
 /-- the relation-oid ↦ name table of FindDroppedColumns does not depend on the iteration order -/
 theorem C11_tableNames_order_independent (rr : RowReader) (π π' : MapOrder TableInfo) (hπ : IsOrder π) (hπ' : IsOrder π')
     (data : Bytes) (t : List (Nat × TableInfo)) (ht : parsePGClass rr data = .ok t) :
-    tableNamesOf π t = tableNamesOf π' t := by
-  unfold tableNamesOf
+    drTableNamesOf π t = drTableNamesOf π' t := by
+  unfold drTableNamesOf
   rw [C11_remote_tables_order_independent rr π π' hπ hπ' data t ht]
 
 /-- looking a table up by name does not depend on the iteration order (fix 02) -/
 theorem C11_findTable_order_independent (rr : RowReader) (π π' : MapOrder TableInfo) (hπ : IsOrder π) (hπ' : IsOrder π')
     (data : Bytes) (t : List (Nat × TableInfo)) (ht : parsePGClass rr data = .ok t) (name : Bytes) :
-    findTable π t name = findTable π' t name := by
-  unfold findTable
+    drFindTable π t name = drFindTable π' t name := by
+  unfold drFindTable
   rw [C11_remote_tables_order_independent rr π π' hπ hπ' data t ht]
 
 /-- **FindDroppedColumns does not depend on map iteration order**: for every row reader, every file tree and
@@ -39,7 +39,7 @@ theorem C11_findDropped_order_independent (rr : RowReader) (π π' : MapOrder Ta
   | some dbData =>
     simp only
     congr 1; funext dbs
-    cases findDb dbs dbName with
+    cases drFindDb dbs dbName with
     | none => rfl
     | some db =>
       simp only
@@ -61,9 +61,9 @@ theorem C11_findDropped_order_independent (rr : RowReader) (π π' : MapOrder Ta
 theorem C11_scanDropped_order_independent (rr : RowReader) (π π' : MapOrder TableInfo) (hπ : IsOrder π) (hπ' : IsOrder π')
     (fs : Bytes → Option Bytes) : scanDroppedColumns rr π fs = scanDroppedColumns rr π' fs := by
   unfold scanDroppedColumns
-  have : scanOne rr π fs = scanOne rr π' fs := by
+  have : drScanOne rr π fs = drScanOne rr π' fs := by
     funext db
-    unfold scanOne
+    unfold drScanOne
     rw [C11_findDropped_order_independent rr π π' hπ hπ' fs db.name]
   rw [this]
 
@@ -78,7 +78,7 @@ theorem C11_schema_order_independent (rr : RowReader) (π π' : MapOrder TableIn
   | some dbData =>
     simp only
     congr 1; funext dbs
-    cases findDb dbs dbName with
+    cases drFindDb dbs dbName with
     | none => rfl
     | some db =>
       simp only
@@ -102,7 +102,7 @@ theorem C11_recover_order_independent (rr : RowReader) (π π' : MapOrder TableI
   | some dbData =>
     simp only
     congr 1; funext dbs
-    cases findDb dbs dbName with
+    cases drFindDb dbs dbName with
     | none => rfl
     | some db =>
       simp only
